@@ -205,7 +205,7 @@ def run(model, rep, tier):
     for qn, rel in (("dns.name.Name.is_subdomain", "SUBDOMAIN"), ("dns.name.Name.is_superdomain", "SUPERDOMAIN")):
         f = model.func(qn)
         tests = [n for n in ast.walk(f.node) if isinstance(n, ast.If)]
-        okk = len(tests) == 1 and normalise_compare(tests[0].test)[0] == "or" and pat.has(f.node, "(__nr, __a, __b) = self.fullcompare(other)", (epr := pat.Env())) and set(atoms(normalise_compare(tests[0].test))) == {(epr["__nr"], "==", f"NameRelation.{rel}"), (epr["__nr"], "==", "NameRelation.EQUAL")} \
+        okk = len(tests) == 1 and normalise_compare(tests[0].test)[0] == "or" and pat.has(f.node, "(__nr, __any1, __any2) = self.fullcompare(other)", (epr := pat.Env())) and set(atoms(normalise_compare(tests[0].test))) == {(epr["__nr"], "==", f"NameRelation.{rel}"), (epr["__nr"], "==", "NameRelation.EQUAL")} \
             and [src(s.value) for s in tests[0].body if isinstance(s, ast.Return)] == ["True"] \
             and [src(s.value) for s in f.node.body if isinstance(s, ast.Return)] == ["False"]
         rep.check(okk, "R-06.3", qn, where(f, f.node), f"accepts exactly {{{rel}, EQUAL}} of self.fullcompare(other)", f"does not accept exactly {{{rel}, EQUAL}}", stmt="predicate")
